@@ -59,13 +59,37 @@ pub fn expr_into_number(expr: &tir::Expression) -> Result<i128, Error> {
     }
 }
 
+pub fn number_into_u64(value: i128) -> Result<u64, Error> {
+    match u64::try_from(value) {
+        Ok(x) => Ok(x),
+        Err(_) => Err(Error::CoerceError(
+            format!("{value}"),
+            "unsigned 64-bit integer".to_string(),
+        )),
+    }
+}
+
+pub fn number_into_i64(value: i128) -> Result<i64, Error> {
+    match i64::try_from(value) {
+        Ok(x) => Ok(x),
+        Err(_) => Err(Error::CoerceError(
+            format!("{value}"),
+            "signed 64-bit integer".to_string(),
+        )),
+    }
+}
+
 pub fn expr_into_metadatum(
     expr: &tir::Expression,
 ) -> Result<pallas::ledger::primitives::alonzo::Metadatum, Error> {
     match expr {
-        tir::Expression::Number(x) => Ok(pallas::ledger::primitives::alonzo::Metadatum::Int(
-            Int::from(*x as i64),
-        )),
+        tir::Expression::Number(x) => match Int::try_from(*x) {
+            Ok(x) => Ok(pallas::ledger::primitives::alonzo::Metadatum::Int(x)),
+            Err(_) => Err(Error::CoerceError(
+                format!("{x}"),
+                "Metadatum integer".to_string(),
+            )),
+        },
         tir::Expression::String(x) => Ok(pallas::ledger::primitives::alonzo::Metadatum::Text(
             x.clone(),
         )),
